@@ -52,9 +52,9 @@ def nightly():
     return _nightly
 
 
-def tree_hash(extra_dirs=()):
+def tree_hash(extra_dirs=(), repo=None):
     h = hashlib.sha256()
-    roots = [REPO] + list(extra_dirs)
+    roots = [repo or REPO] + list(extra_dirs)
     for root in roots:
         files = []
         for dp, dn, fn in os.walk(root):
@@ -88,20 +88,35 @@ class Lock:
         self.fh.close()
 
 
-def _prepare_corpus():
-    """The corpus crate path-depends on /repo; it needs /repo's lock file to resolve offline."""
-    cdir = CONFIGS["X"][0]
-    src = os.path.join(REPO, "Cargo.lock")
+def _prepare_corpus(repo=None, cdir=None):
+    """The corpus crate path-depends on the repository; it needs the repository's lock file to resolve offline."""
+    cdir = cdir or CONFIGS["X"][0]
+    src = os.path.join(repo or REPO, "Cargo.lock")
     dst = os.path.join(cdir, "Cargo.lock")
     if os.path.exists(src):
         shutil.copyfile(src, dst)
 
 
-def build(cfg, force=False, verbose=False):
-    """Return (facts_dir, info). Builds when the cache for the current tree is missing."""
+def _scratch_corpus(repo):
+    """A copy of the corpus crate that path-depends on a scratch copy of the repository."""
+    dst = os.path.join(repo, ".verif-corpus")
+    if os.path.exists(dst):
+        shutil.rmtree(dst)
+    shutil.copytree(CONFIGS["X"][0], dst, ignore=shutil.ignore_patterns("target", "Cargo.lock"))
+    p = os.path.join(dst, "Cargo.toml")
+    t = open(p).read().replace('path = "/repo/fastrace"', 'path = "%s/fastrace"' % repo)
+    open(p, "w").write(t)
+    return dst
+
+
+def build(cfg, force=False, verbose=False, repo=None):
+    """Return (facts_dir, info). Builds when the cache for the current tree is missing.
+    repo: analyse a scratch copy of the repository instead of /repo (sensitivity self-test only)."""
     cwd, cargo_args, extra_flags, floors = CONFIGS[cfg]
+    if repo is not None:
+        cwd = _scratch_corpus(repo) if cfg == "X" else repo
     extra = [os.path.join(VERIF, "corpus")] if cfg == "X" else []
-    th = tree_hash(extra)
+    th = tree_hash(extra, repo)
     out = os.path.join(CACHE, "facts", th, cfg)
     info = {"config": cfg, "tree_hash": th, "cache_hit": False, "build_s": 0.0}
     with Lock("build-" + cfg):
@@ -121,7 +136,7 @@ def build(cfg, force=False, verbose=False):
                 if any(d.startswith(m + "-") for m in MEMBERS + ["trace_shapes", "trace-shapes"]):
                     shutil.rmtree(os.path.join(prof, d), ignore_errors=True)
         if cfg == "X":
-            _prepare_corpus()
+            _prepare_corpus(repo, cwd if repo is not None else None)
         rustc, libdir = nightly()
         env = dict(os.environ)
         env.update({
